@@ -3,6 +3,8 @@ import Goirc.Model.Split
 import Goirc.Spec.Split
 import Goirc.Model.Commands
 import Goirc.Spec.Wire
+import Goirc.Model.Flood
+import Goirc.Spec.Flood
 /-!
 # Line-protocol oracle: one request per line on stdin, one reply per line on stdout.
 
@@ -60,6 +62,22 @@ def handle (words : List String) : String :=
     match hexDecode wire, parseCmd m args with
     | some w, some c => if Spec.Wire.bytesOk (verbOf c) w then "ok" else "fail"
     | _, _ => "bad-op"
+  | ["rate", c, b, e] =>
+    match c.toNat?, b.toInt?, e.toInt? with
+    | some c, some b, some e => let r := Go.Flood.rate c b e; s!"{r.1} {r.2}"
+    | _, _, _ => "bad-op"
+  | ["spec10", c, b0, lo, hi, ret, b'] =>
+    match c.toNat?, b0.toInt?, lo.toInt?, hi.toInt?, ret.toInt?, b'.toInt? with
+    | some c, some b0, some lo, some hi, some ret, some b' => if Spec.Flood.okCall c b0 lo hi ret b' then "ok" else "fail"
+    | _, _, _, _, _, _ => "bad-op"
+  | ["spec10w", obs] =>
+    let parse (p : String) : Option (Nat × Int) :=
+      match p.splitOn ":" with
+      | [c, w] => do pure ((← c.toNat?), (← w.toInt?))
+      | _ => none
+    match (obs.splitOn ",").mapM parse with
+    | some l => if Spec.Flood.windowOk l then "ok" else "fail"
+    | none => "bad-op"
   | ["cut", t] =>
     match hexDecode t with
     | some t => hexEncode (cutNewLines t)
